@@ -503,6 +503,7 @@ func c04RawJudge(in c04In) (string, string) {
 	if err == nil && c == nil {
 		return "decode-and-validate returned neither claims nor an error", "bug"
 	}
+	otherTrafficEvery(16) // the decoded claims are read after unrelated work
 	// the non-validating decoder followed by Validate must agree
 	c2, err2 := psatoken.DecodeClaimsFromCBOR(in.Tok)
 	agree := (err2 == nil && c2.Validate() == nil) == (err == nil)
